@@ -91,6 +91,17 @@ func TestWorker(t *testing.T) {
 	switch job.Mode {
 	case "search":
 		workerSearch(t, &job, enc)
+	case "hashes":
+		for i := 0; i < job.MaxRuns; i++ {
+			idx := job.From + i*job.Stride
+			spec := RunSpec{Prop: job.Prop, Tier: job.Tier, Seed: seedFor(job.SeedBase, job.Prop, idx)}
+			if en := enumerators[job.Prop]; en != nil {
+				vs := en(t, job.Tier)
+				spec.Variant = vs[idx%len(vs)]
+			}
+			res := Execute(t, spec)
+			_ = enc.Encode(map[string]any{"kind": "hash", "idx": idx, "hash": res.Hash, "steps": res.Steps, "outcome": res.Outcome, "err": res.HarnessErr})
+		}
 	case "replay":
 		spec := *job.Spec
 		spec.KeepTrace = true
@@ -220,9 +231,9 @@ func workerSearch(t *testing.T, job *Job, enc *json.Encoder) {
 
 func seedsPerVariant(tier string) int {
 	if tier == "thorough" {
-		return 12
+		return 1500
 	}
-	return 2
+	return 40
 }
 
 func firstDiff(a, b []string) string {
